@@ -145,7 +145,8 @@ impl Search {
     /// ```
     fn iter_deep(&mut self, evaluator: &impl Evaluator, max_depth: Option<Depth>) {
         let start = Instant::now();
-        for depth in 1..=max_depth.unwrap_or(Depth::MAX) {
+        // The depth limit bounds the number of iterations; it is not a per-node limit
+        for depth in 1..=max_depth.or(self.limits.depth).unwrap_or(Depth::MAX) {
             self.alpha_beta_start(evaluator, depth, start);
 
             if !self.is_running() || self.limits_exceeded(start) {
@@ -552,12 +553,6 @@ impl Search {
         }
         if let Some(nodes) = self.limits.nodes {
             if self.info.nodes >= nodes {
-                self.running.store(false, Ordering::Relaxed);
-                return true;
-            }
-        }
-        if let Some(depth) = self.limits.depth {
-            if self.info.depth >= depth {
                 self.running.store(false, Ordering::Relaxed);
                 return true;
             }
